@@ -317,6 +317,14 @@ def run(ctx):
     rg = ctx.rule("R16-GENSIB", "the raw-AST and optimized-AST generators build getter forests identically for shared operators (R20-GENSIB instances)")
     gensib.run(rg, fs["pest_typed_generator"])
     rg.require(20, "arms")
+    # what the getters hand out is what the content stores: container nodes keep every child that matched
+    from . import store
+    rst = ctx.rule("R16-STORE", "runtime container nodes (Option, sequences, choices, Positive, Push, Box, rule structs with content) return, on every "
+                   "path, a node that contains the node of each child that matched on that path: a getter cannot miss a node that was matched")
+    world2 = nodes.World(facts.load("core", "fx_macros"), ["pest_typed", "fx_macros"])
+    store.store_rule(rst, world2)
+    rst.require(30, "container functions")
+
     ctx.assume("that the nodes are 'the very nodes matched' on inputs follows from borrowing &self.content (types); decided here: shape and access path on the fixture grammars")
     ctx.assume("accessor `_k` denotes variant k (C17 R17-PARAM); expected mentions are computed from the emitted content type, independently of the generator's getter code")
     ctx.explanation = ("On fixture grammars with repeated mentions, nested options / choices / repetitions and mentions under predicates, the "
